@@ -1562,6 +1562,9 @@ class LangServer:
         try:
             with open(config_path) as jsonfile:
                 config_dict = json5.load(jsonfile)
+                if not isinstance(config_dict, dict):
+                    raise ValueError("the top level must be an object")
+                self._drop_invalid_config_values(config_dict)
 
                 # Include and Exclude directories
                 self._load_config_file_dirs(config_dict)
@@ -1579,10 +1582,39 @@ class LangServer:
         except FileNotFoundError:
             self.post_message(f"Configuration file '{self.config}' not found")
 
+        # Unreadable file (permissions, a directory, ...)
+        except OSError as e:
+            self.post_message(f'Error: "{e}" while reading Configuration file')
+
         # Erroneous json file syntax
         except ValueError as e:
             msg = f'Error: "{e}" while reading "{self.config}" Configuration file'
             self.post_message(msg)
+
+    def _drop_invalid_config_values(self, config_dict: dict) -> None:
+        """Remove (and report) options whose value does not have the type of the
+        corresponding command line option, instead of failing later on"""
+        for key, value in list(config_dict.items()):
+            current = getattr(self, key, None)
+            if isinstance(current, bool):
+                valid = isinstance(value, bool)
+            elif isinstance(current, int):
+                valid = isinstance(value, int) and not isinstance(value, bool)
+            elif isinstance(current, str):
+                valid = isinstance(value, str)
+            elif isinstance(current, (set, list)):
+                valid = isinstance(value, list) and all(
+                    isinstance(v, str) for v in value
+                )
+            elif isinstance(current, dict):
+                valid = isinstance(value, (dict, list))
+            else:
+                valid = True
+            if not valid:
+                config_dict.pop(key)
+                self.post_message(
+                    f'Ignoring invalid value for option "{key}" in Configuration file'
+                )
 
     def _load_config_file_dirs(self, config_dict: dict) -> None:
         self.excl_paths = set(config_dict.get("excl_paths", self.excl_paths))
